@@ -80,6 +80,8 @@ pub fn output_decls() -> Vec<(&'static str, &'static str)> {
         ("none", "[]"),
         ("[out, out/sub]+[o] (nested paths in one resource)", "[{paths: [out, out/sub], extensions: [o]}]"),
         ("[out]+[o] and [out/sub]+[o] (nested paths in two resources)", "[{paths: [out], extensions: [o]}, {paths: [out/sub], extensions: [o]}]"),
+        ("[missing, out] (a path that does not exist comes first)", "[{paths: [missing, out]}]"),
+        ("[missing] and [out]+[o] (a resource whose path does not exist comes first)", "[{paths: [missing]}, {paths: [out], extensions: [o]}]"),
     ]
 }
 pub fn clean_modes() -> Vec<Vec<&'static str>> {
@@ -237,7 +239,8 @@ fn c12_expected_deleted(before: &BTreeMap<PathBuf, Node>, decl: usize, mode: &[&
             7 => {
                 del.insert(PathBuf::from("cfg.txt"));
             }
-            9 | 10 => filtered("out", &["o"], &mut del, &mut dontcare),
+            9 | 10 | 12 => filtered("out", &["o"], &mut del, &mut dontcare),
+            11 => plain("out", &mut del),
             _ => {}
         }
     }
@@ -438,6 +441,7 @@ pub enum Inv {
     Other,              // other
     Sibling,            // c::t_1 (same project as t, name differs only in '-' / '_')
     CleanSibling,       // --clean c::t_1
+    CorruptSibling,     // the sibling's record is damaged, then c::t_1 is built (the damaged record is discarded)
     Bad,                // bad (fails)
     CleanOther,         // --clean other
     CleanUse,           // --clean use (cleans c::t too)
@@ -449,7 +453,7 @@ pub enum Inv {
 pub fn inv_alphabet() -> Vec<Inv> {
     use Inv::*;
     // (rewriting t's input with the same content is left out: the statement allows either decision then)
-    vec![RootQualified, RootUse, OwnDirBare, OwnDirQualified, RootRelative, RootDotSlash, RootSymlinked, OwnDirSymlinked, RootAbsolute, RootAbsoluteDotDot, OwnDirAbsoluteLink, Other, Sibling, CleanSibling, Bad, CleanOther, CleanUse, EditOtherInput, EditTInput]
+    vec![RootQualified, RootUse, OwnDirBare, OwnDirQualified, RootRelative, RootDotSlash, RootSymlinked, OwnDirSymlinked, RootAbsolute, RootAbsoluteDotDot, OwnDirAbsoluteLink, Other, Sibling, CleanSibling, CorruptSibling, Bad, CleanOther, CleanUse, EditOtherInput, EditTInput]
 }
 fn reaches_t(i: Inv) -> bool {
     use Inv::*;
@@ -495,6 +499,10 @@ fn perform(base: &Path, inv: Inv, seq: usize) -> Option<RunOut> {
         Other => run_zinoma(base, &["-p", "R", "other"], t),
         Sibling => run_zinoma(base, &["-p", "R", "c::t_1"], t),
         CleanSibling => run_zinoma(base, &["-p", "R", "--clean", "c::t_1"], t),
+        CorruptSibling => {
+            write(&r.join("c/.zinoma/c::t_1.checksums"), b"\x05damaged");
+            run_zinoma(base, &["-p", "R", "c::t_1"], t)
+        }
         Bad => run_zinoma(base, &["-p", "R", "bad"], t),
         CleanOther => run_zinoma(base, &["-p", "R", "--clean", "other"], t),
         CleanUse => run_zinoma(base, &["-p", "R", "--clean", "use"], t),
@@ -526,7 +534,7 @@ pub fn check_c18(rep: &mut Report) {
         for &a in &alpha {
             seqs.push(vec![a, e]);
             for &b in &alpha {
-                if !thorough && !(reaches_t(a) && reaches_t(b)) && !(matches!(a, Inv::EditTInput | Inv::CleanUse | Inv::Bad | Inv::CleanOther) && reaches_t(b)) && !(reaches_t(a) && matches!(b, Inv::EditTInput | Inv::CleanUse | Inv::Bad | Inv::CleanOther | Inv::Other | Inv::EditOtherInput | Inv::Sibling | Inv::CleanSibling)) {
+                if !thorough && !(reaches_t(a) && reaches_t(b)) && !(matches!(a, Inv::EditTInput | Inv::CleanUse | Inv::Bad | Inv::CleanOther) && reaches_t(b)) && !(reaches_t(a) && matches!(b, Inv::EditTInput | Inv::CleanUse | Inv::Bad | Inv::CleanOther | Inv::Other | Inv::EditOtherInput | Inv::Sibling | Inv::CleanSibling | Inv::CorruptSibling)) {
                     continue; // quick: both earlier steps are about t, or one is and the other is an edit/clean/failure
                 }
                 seqs.push(vec![a, b, e]);
